@@ -131,6 +131,16 @@ def check(ctx):
                            f"an answer built by create_answer is sent {len(sent)} time(s) / another message is taken in between "
                            f"({between}) / without validation ({valid}) - {p.describe()}", key=f"sent:{c}:{sorted(p.atoms.items())}")
     ctx.floor("answer_building_paths", n_created, 4)
+    # "emitted before any later inbound message is processed": Open takes an inbound message only when nothing is waiting to
+    # be sent (a base answer may still sit behind a full 256 KiB batch - the template would be overwritten by the next request)
+    oci, ops = psm.state_paths(repo, "Open")
+    for p in ops:
+        if p.has_effect("get_message"):
+            ctx.decide(p.atom("has_send_queue_message") is False, "R-PATH/send-before-receive", f"{oci.qual}.run", oci.where(),
+                       "an inbound message is processed only on ticks with an empty send queue",
+                       "Open.run processes the next inbound message while outbound messages may still be queued: a base answer "
+                       "waiting behind a full batch is overwritten (shared template) by the next request before it is serialised "
+                       f"- {p.describe()[:160]}", key="send_before_receive")
     # synchronous serialisation: State.send_message -> put_message_into_send_queue ; send_message_from_queue -> msg.dump()
     st = ctx.need(repo.cls(f"{psm.SM}.State"), "State")
     sm = ctx.need(st.methods.get("send_message"), "State.send_message")
